@@ -109,6 +109,9 @@ def bindings(e, maxcombos=4, rng=None):
     free = sorted((a for a in e.arguments if isinstance(a, ev._LoopIndex)), key=lambda a: str(a.loop_id))
     if any(not isinstance(i.length, ev.Constant) for i in free):
         return None
+    if free and any(loop.index in free for loop in e._loops):
+        # an inner loop re-binds the same index (legal: nested loops over one id); substituting a constant would also hit the inner body
+        return None
     ranges = [range(int(i.length.value)) for i in free]
     combos = list(itertools.islice(itertools.product(*ranges), 0, 64))
     if len(combos) > maxcombos:
@@ -238,7 +241,7 @@ def check_case(case, seed_key, res, tier):
                     if tolerance.compare(r, full[j], 1.)[0] == tolerance.VIOLATION:
                         res.violation('value depends on an argument that is not announced', pack(case, av), f'output {j} announces {sorted(announced)}')
                         return
-                if o.isconstant != (not announced):
+                if o.isconstant and o.arguments:      # (Guard & co. deliberately announce isconstant=False without arguments)
                     res.violation('isconstant inconsistent with arguments', pack(case, av), f'output {j}: isconstant={o.isconstant}, arguments={sorted(announced)}')
                     return
                 # perturb the non-announced arguments
